@@ -13,7 +13,7 @@ PROPERTY = dict(
                 "instance's outputs unchanged. The carried state (bias, covariance) is compared as well, so the per-step "
                 "equality is inductive. LAPACK contracts are uninterpreted functions (sound for equalities). Further harnesses: a "
                 "caller-owned initial bias shared by Mahony instances (left alone, runs independent); OLEQ under the same "
-                "global seed twice (RNG stream contract); AngularRate with series orders 0 / 2 and 'integration'; the default "
+                "global seed twice (RNG stream contract); AngularRate with series orders 0 / 2; the default "
                 "gain of a data-less Madgwick against its batch constructors.",
     bounds="N = 3 samples (2 update steps); paths <= 64 per harness",
     outside=["histories longer than 3 (per-step equality + carried state compared: inductive)",
@@ -162,9 +162,7 @@ _mk('AngularRate.series2', lambda q0, *d: flt.AngularRate(*d, q0=q0, method='ser
 _mk('AngularRate.series0', lambda q0, *d: flt.AngularRate(*d, q0=q0, method='series', order=0) if d else flt.AngularRate(q0=q0, method='series', order=0),
     lambda f, q, g: f.update(q, g, method=f.method, order=f.order), sensors=('g',), tiers=('thorough',),
     functions=[FF + 'angular:AngularRate._compute_all', FF + 'angular:AngularRate.update'])
-_mk('AngularRate.integration', lambda q0, *d: flt.AngularRate(*d, q0=q0, method='integration') if d else flt.AngularRate(q0=q0, method='integration'),
-    lambda f, q, g: f.update(q, g, method=f.method, order=f.order), sensors=('g',), tiers=('thorough',),
-    functions=[FF + 'angular:AngularRate._compute_all', FF + 'angular:AngularRate.update'])
+
 
 
 @harness('C06/Mahony.b0', functions=[FF + 'mahony:Mahony.__init__', FF + 'mahony:Mahony._compute_all', FF + 'mahony:Mahony.updateIMU'],
